@@ -20,7 +20,7 @@ NATIVE_PY = '/venv/bin/python'
 TRUSTED_BASE = [
     'T1 pyvc: the symbolic semantics of the Python subset (guarded by the native cross-check and mutation self-test)',
     'T2 z3 5.1.0 (second back end cvc5 / z3 4.8.12 in the thorough tier)',
-    'T3 library models in pyvc/lib.py (list/tuple/dict/range/zip/enum/dataclass, numpy zeros/ones/indexing, numpy Generator.choice/integers/random as any in-range outcome, more_itertools.one/pairwise, functools.partial/lru_cache)',
+    'T3 library models in pyvc/lib.py (list/tuple/dict/range/zip/enum/dataclass, numpy zeros/ones/indexing, linspace(dtype=int) for at most 6 samples (compared with numpy by the setup command), numpy Generator.choice/integers/random/shuffle as any in-range outcome / any permutation, more_itertools.one/pairwise, functools.partial/lru_cache, pickle round trip = deep copy of instance dictionaries, hash = uninterpreted function of the hashed value, math.sqrt = real square root, gym<=0.21 Env/Wrapper/spaces/seeding stubs)',
     'T4 closed world: the eleven built-in GridObject classes registered in grid_object.py',
     'T5 ownership: no GridObject instance is reachable twice from one state (cell references write through)',
     'T6 partial correctness: termination / recursion depth / memory are not verified',
